@@ -37,11 +37,9 @@ func New(config ...Config) fiber.Handler {
 			}
 		}
 
-		// Continue stack
-		err := c.Next()
-
-		// Encrypt response cookies
-		c.Response().Header.VisitAllCookie(func(key, _ []byte) {
+		// Encrypt response cookies once the rest of the stack is done - also when it panics and a
+		// recover middleware further out turns that into a response
+		defer c.Response().Header.VisitAllCookie(func(key, _ []byte) {
 			keyString := string(key)
 			if !isDisabled(keyString, cfg.Except) {
 				cookieValue := fasthttp.Cookie{}
@@ -58,6 +56,7 @@ func New(config ...Config) fiber.Handler {
 			}
 		})
 
-		return err
+		// Continue stack
+		return c.Next()
 	}
 }
